@@ -59,7 +59,17 @@ func nativeReplay(cex *CounterEx, ph PropHarness, file string) replayOutcome {
 		return replayOutcome{Result: "error: " + err.Error()}
 	}
 	defer os.RemoveAll(tmp)
-	ov := map[string]map[string]string{"Replace": overlayFiles(true)}
+	repl := overlayFiles(true)
+	if ovr, err := overrideFiles(); err == nil {
+		i := 0
+		for virt, content := range ovr {
+			f := filepath.Join(tmp, fmt.Sprintf("override%d.go", i))
+			i++
+			os.WriteFile(f, content, 0o644)
+			repl[virt] = f
+		}
+	}
+	ov := map[string]map[string]string{"Replace": repl}
 	ob, _ := json.Marshal(ov)
 	ovf := filepath.Join(tmp, "overlay.json")
 	os.WriteFile(ovf, ob, 0o644)
